@@ -718,6 +718,8 @@ class Lib:
             if name == 'size':
                 return 1
             return LibMethod(v, name)
+        if isinstance(v, Opaque) and v.name == 'super':
+            return self.super_lookup(v, name)
         if isinstance(v, Opaque) and v.name == 'datetime':
             if name == 'tzinfo':
                 from . import models_time
@@ -739,6 +741,8 @@ class Lib:
                 return v.getattr(self.I, name)
             return LibMethod(v, name)
         if isinstance(v, (str, list, tuple, dict, set, int, float)):
+            if not hasattr(type(v), name):
+                raise PyRaise(builtin_exc('AttributeError'), "'%s' object has no attribute '%s'" % (type(v).__name__, name))
             return LibMethod(v, name)
         if isinstance(v, Func) and name == '__name__':
             return v.node.name if not isinstance(v.node, ast.Lambda) else '<lambda>'
@@ -787,7 +791,7 @@ class Lib:
         raise Unsupported('binop on objects')
 
     def enter_context(self, cm):
-        if isinstance(cm, Opaque) and cm.name in ('errstate', 'ctx'):
+        if isinstance(cm, Opaque) and cm.name in ('errstate', 'ctx', 'file'):
             return cm
         raise Unsupported('with-context %r' % (cm,))
 
@@ -800,6 +804,19 @@ class Lib:
 
     def _super_getattr(self, I, name):
         raise Unsupported('super().%s' % name)
+
+    def super_lookup(self, sup, name):
+        cls, selfv = sup.cls, sup.selfv
+        start = selfv.cls if isinstance(selfv, Obj) and isinstance(selfv.cls, ClassV) else cls
+        mro = start.mro()
+        if cls in mro:
+            mro = mro[mro.index(cls) + 1:]
+        for c in mro:
+            if name in c.methods:
+                return BoundMethod(c.methods[name], selfv)
+        if name == '__init__':
+            return Lam(lambda *a, **k: None, 'object.__init__')
+        raise PyRaise(builtin_exc('AttributeError'), "'super' object has no attribute '%s'" % name)
 
     def instantiate_foreign(self, cls, o, args, kwargs):
         raise Unsupported('instantiate class with foreign base')
@@ -955,6 +972,9 @@ def _float(L, x=0.0):
     if isinstance(x, Opaque) and hasattr(x, 'as_float'):
         return x.as_float(L.I)
     if isinstance(x, str):
+        toks = L.ctx.ghost.get('tokens', {})
+        if x in toks:
+            return to_real(toks[x])
         try:
             return float(x)
         except ValueError as e:
@@ -1904,6 +1924,10 @@ def _add_at(L, a, I, v):
     a.f = newf
     a.ghost['add_at'] = dict(idx=I.snapshot(), v=v, old=old, newf=newf)
     return None
+
+
+for _nm, _op in (('gt', ast.Gt), ('lt', ast.Lt), ('ge', ast.GtE), ('le', ast.LtE), ('eq', ast.Eq), ('ne', ast.NotEq)):
+    MODELS['operator.' + _nm] = (lambda opc: (lambda L, a, b: L.I.S.compare(opc(), a, b)))(_op)
 
 
 @model('numpy.errstate')
